@@ -227,6 +227,10 @@ def c20_scenario(bins, idx, nt, flt, rng, heavy=False, stall=False):
                 # text is not only ASCII: accented Latin, CJK and emoji (2-, 3- and 4-byte sequences), in bursts larger
                 # than any relay buffer
                 wide = " héllo wörld 日本語のテキスト 🙂🚀" if idx % 2 == 1 else ""
+                if stall:
+                    # megabytes per stream in long lines: more than the socket buffers between run and listener hold
+                    for s in ("stdout", "stderr"):
+                        steps.append({"op": "out", "stream": s, "text": "".join("%s %s %s bulk %d %s\n" % (t, c, s, i, "B" * 65000) for i in range(40))})
                 if heavy:
                     # thousands of lines per flush on both streams at once: one flush spans many socket writes
                     n = rng.choice([600, 1500, 4000])
@@ -289,12 +293,17 @@ def c20_scenario(bins, idx, nt, flt, rng, heavy=False, stall=False):
                 orphans += 1
             else:
                 cur["lines"].append(ln)
+        # long lines travel to the judge as digests (equality of line sequences is what Reassemble compares)
+        def dg(ln):
+            return ln if len(ln) <= 256 else "#%s:%d" % (hashlib.sha256(ln.encode("utf-8", "replace")).hexdigest()[:20], len(ln))
+        for b in blocks:
+            b["lines"] = [dg(x) for x in b["lines"]]
         tasks = []
         for (c, t, s), b in sorted(logs.items()):
             sl = (b or b"").decode("utf-8", "replace").split("\n")
             if sl and sl[-1] == "":
                 sl.pop()
-            tasks.append({"stream": s, "target": t, "cmd": c, "stored": sl})
+            tasks.append({"stream": s, "target": t, "cmd": c, "stored": [dg(x) for x in sl]})
         return {"ev": "c20", "scenario": idx, "filter": {"stdout": bool(f2.get("stdout")), "stderr": bool(f2.get("stderr")),
                                                          "targets": f2.get("targets", []), "commands": f2.get("commands", [])},
                 "tasks": tasks, "blocks": blocks, "orphans": orphans, "preamble_ok": preamble_ok, "rc": res["rc"] if res["rc"] is not None else -9}
